@@ -59,3 +59,15 @@ Definition check_chain_rule (tol : bool) (A : mat) (csF : list Qc) (dg : geo) (d
   | Some g => if tol then qcl_close tol9 (qvec obs) g else qcl_eqb g (qvec obs)
   | None => false
   end.
+
+(* ---- Image2D(order='F'): par2fun is a permutation ------------------------------------------------ *)
+(* C-order index k = i*c + j of a function value  ->  F-order index j*r + i of the parameter it is *)
+Definition sigma (r c k : nat) : nat := ((k mod c) * r + k / c)%nat.
+Definition img_perm (r c : nat) : mat := map (fun k => qunit (r * c) (sigma r c k)) (seq 0 (r * c)).
+
+(* (J_F(par2fun w) P)^T direction *)
+Definition chain_rule_value_imgF (A : mat) (csF : list Qc) (r c : nat) (d w : vec) : vec :=
+  qmattvec (r * c) (qmatmul (r * c) (poly_jac A (pderiv csF) (img_par2fun r c w)) (img_perm r c)) d.
+
+Definition check_chain_rule_imgF (A : mat) (csF : list Qc) (r c : nat) (d w : vec) (obs : list Q) : bool :=
+  Nat.eqb (length w) (r * c) && qcl_eqb (chain_rule_value_imgF A csF r c d w) (qvec obs).
